@@ -252,6 +252,11 @@ func unionProps(fc *FuncContract) []string {
 				m[p] = true
 			}
 		}
+		for _, c := range lc.Steps {
+			for _, p := range c.Props {
+				m[p] = true
+			}
+		}
 	}
 	for _, p := range fc.Props {
 		m[p] = true
